@@ -26,7 +26,7 @@ ASSUMPTIONS = [
     "a rejected write still counts as 'written' for the user/once clauses; C16.continue compares against a second run without rejections",
 ]
 PROBES = ["override.value", "override.disabled", "override.nondefault_setting", "override.disable_nondefault", "current.unreadable", "current.above_default",
-          "rejected_write", "reject_status.INVALID_CALL", "reject_status.NO_BUFFERS", "reject_status.BAD_ARGUMENT", "reject_status.INVALID_ID", "buffer_count_written", "version_gt_14", "schema_default_injected"]
+          "rejected_write", "rejected_value_write", "reject_status.INVALID_CALL", "reject_status.NO_BUFFERS", "reject_status.BAD_ARGUMENT", "reject_status.INVALID_ID", "buffer_count_written", "version_gt_14", "schema_default_injected"]
 
 VERSIONS = list(range(4, 17))
 LEVELS = ("unreadable", 0, 11, 12, 13, 200)
@@ -107,11 +107,11 @@ def run(scenario, params, tape, detail=False):
     last = {}
     REJ = ("INVALID_CALL", "NO_BUFFERS", "BAD_ARGUMENT", "INVALID_ID")  # EzspStatus ERROR_INVALID_CALL / OUT_OF_MEMORY / INVALID_VALUE / INVALID_ID
 
-    async def one(ez, current, overrides, reject, label):
+    async def one(ez, current, overrides, reject, label, vreject=()):
         """current: {id: value|'unreadable'}; overrides: {name: value|None}; reject: set of ids"""
         nev[0] += 1
 
-        def setup(rej):
+        def setup(rej, vrej=()):
             ncp.config.clear()
             ncp.values.clear()
             ncp.write_log.clear()
@@ -119,8 +119,9 @@ def run(scenario, params, tape, detail=False):
             ncp.config_default = {i: v for i, v in current.items() if v != "unreadable"}
             ncp.config_unreadable = {i for i, v in current.items() if v == "unreadable"}
             ncp.config_reject = dict(rej) if isinstance(rej, dict) else set(rej)
+            ncp.value_reject = set(vrej)
 
-        setup(reject)
+        setup(reject, vreject)
         raised = None
         try:
             await ez.write_config(dict(overrides))
@@ -129,6 +130,7 @@ def run(scenario, params, tape, detail=False):
         log = list(ncp.write_log)
         cfg = [(i, v, st) for (k, i, v, st) in log if k == "config"]
         last["cfg"] = cfg
+        last["vals"] = [i for (k, i, v, st) in log if k == "value"]
         where = f"v{V} {label} overrides={overrides} rejected={sorted(name_of.get(i, i) for i in reject)}: "
         ids = [i for (i, v, st) in cfg]
         # once
@@ -178,7 +180,7 @@ def run(scenario, params, tape, detail=False):
             else:
                 key = "keyerror-disable-nondefault" if isinstance(raised, KeyError) else "raised"
                 viol.append(("C16.continue", key, where + f"write_config raised {raised!r} after {len(log)} writes"))
-        elif reject:
+        elif reject or vreject:
             probe("rejected_write", len([1 for x in log if x[3] != "OK"]))
             # continue: same sequence as without rejections
             setup(())
@@ -218,6 +220,11 @@ def run(scenario, params, tape, detail=False):
             current = {int(e): 1 for e in t.EzspConfigId}
             await one(ez, current, {}, set(), "baseline")
             ids = [i for (i, v, st_) in last["cfg"]]
+            vids_w = list(last["vals"])
+            if params["st0"] == 0:
+                for vid in vids_w:
+                    probe("rejected_value_write")
+                    await one(ez, current, {}, set(), f"value {vid} rejected", vreject={vid})
             for stn in REJ[params["st0"]:params["st0"] + 2]:
                 for i in ids:
                     probe("reject_status." + stn)
